@@ -1,16 +1,16 @@
-SPECIFICATION GenSpec
+SPECIFICATION Spec
 CONSTANTS
   Timeout = 300
   SlowDelay = 80
   HangDelay = 700
   TimeoutRecoverable = TRUE
-  BackoffGrows = TRUE
-  MaxLenWebhook = 4
-  MaxLenPagerduty = 3
+  BackoffGrows = FALSE
+  MaxLenWebhook = 2
+  MaxLenPagerduty = 1
   Deadlines = {450, 1600, 2900}
   CancelDeadline = 2900
   Cancels = {130, 950}
-  LongDeadlines = {5000, 8000}
-  LongLen = 2
-INVARIANTS Emit
+  LongDeadlines = {3000}
+  LongLen = 1
+INVARIANTS InvClauses
 CHECK_DEADLOCK FALSE
